@@ -315,6 +315,8 @@ pub enum Inject {
     ConstsNonEmpty { comp: usize, party: usize, from: usize },
     Validate { comp: usize, party: usize },
     MpcMsg { comp: usize, party: usize, from: usize },
+    /// `count` MPC messages at once; `from` = the receiving party itself or an unknown index
+    MpcMsgBurst { comp: usize, party: usize, from: usize, count: usize },
     Cancel { comp: usize, party: usize },
     /// a schedule with a different policy (index into Scenario::alt_policies) for the same computation
     AltSchedule { comp: usize, party: usize, alt: usize },
@@ -868,6 +870,15 @@ fn do_inject(shared: &Arc<Shared>, slot: &CallSlot, inj: &Inject, sc: &Scenario,
             if let Some(h) = get(comp, party) {
                 let pol = sc.policies[comp][party].clone();
                 spawn_call(shared, slot, "validate", comp, party, step, compile_alive, async move { h.validate(ValidateRequest::from(&pol)).await });
+            }
+        }
+        Inject::MpcMsgBurst { comp, party, from, count } => {
+            if let Some(h) = get(comp, party) {
+                let name = if from == party { "mpc_msg-self-burst".to_string() } else { format!("mpc_msg(from={from})") };
+                for _ in 0..count {
+                    let h = h.clone();
+                    spawn_call(shared, slot, &name, comp, party, step, compile_alive, async move { h.mpc_msg(MpcMsg { from, data: vec![9, 9, 9] }).await });
+                }
             }
         }
         Inject::MpcMsg { comp, party, from } => {
